@@ -25,6 +25,7 @@ import (
 	"math"
 	"sort"
 	"strings"
+	"sync"
 	"time"
 
 	"github.com/cockroachdb/errors"
@@ -904,6 +905,7 @@ func (r *replicateChannelManager) forwardMsg(targetPChannel string, msg *api.Rep
 		r.apiEventChan <- &api.ReplicateAPIEvent{
 			EventType: api.ReplicateError,
 			Error:     errors.Newf("channel %s not found when forward the msg", targetPChannel),
+			TaskID:    msg.TaskID,
 		}
 		log.Warn("channel not found when forward the msg",
 			zap.String("target_pchannel", targetPChannel), zap.Strings("channels", lo.Keys(r.channelHandlerMap)))
@@ -980,6 +982,8 @@ type replicateChannelHandler struct {
 	addCollectionCnt  *int
 
 	sourceSeekPosition *msgstream.MsgPosition
+	// the source collections which have a pack that can't be handled, the key is the source collection id
+	failedCollections sync.Map
 
 	downstream    string
 	sourceKey     bool // whether the pchannel of source milvus is key
@@ -1100,6 +1104,7 @@ func (r *replicateChannelHandler) RemoveCollection(collectionID int64) {
 	}
 	delete(r.collectionRecords, collectionID)
 	delete(r.collectionSeekPositions, collectionID)
+	r.failedCollections.Delete(collectionID)
 	if collectionRecord != nil {
 		// the collection name is not unique, the collections in the different databases can have the same name
 		if nameInfo := r.collectionNames[collectionRecord.CollectionName]; nameInfo != nil && nameInfo.CollectionID == collectionID {
@@ -1318,7 +1323,16 @@ func (r *replicateChannelHandler) getTSManagerChannelKey(channelName string) str
 func (r *replicateChannelHandler) innerHandleReplicateMsg(forward bool, msg *api.ReplicateMsg) {
 	msgPack := msg.MsgPack
 	verifYield("enter", r.targetPChannel, msg, nil)
+	if _, failed := r.failedCollections.Load(msg.CollectionID); failed && !forward {
+		// a pack of the collection can't be handled and the error has been reported, the following packs should not be
+		// replicated, otherwise the failed pack is skipped. The stream is read again from the checkpoint after the task is resumed.
+		verifYield("dropped", r.targetPChannel, msg, nil)
+		return
+	}
 	p := r.handlePack(forward, msgPack, msg.TaskID, msg.PChannelName)
+	if p == nil && !forward {
+		r.failedCollections.Store(msg.CollectionID, struct{}{})
+	}
 	if p == nil || p == api.EmptyMsgPack {
 		verifYield("dropped", r.targetPChannel, msg, nil)
 		return
@@ -1622,7 +1636,7 @@ func (r *replicateChannelHandler) handlePack(forward bool, pack *msgstream.MsgPa
 		}
 		info, err := r.getCollectionTargetInfo(sourceCollectionID)
 		if err != nil {
-			r.sendErrEvent(err)
+			r.sendErrEvent(taskID, err)
 			log.Warn("fail to get collection info", zap.Int64("collection_id", sourceCollectionID), zap.Error(err))
 			return nil
 		}
@@ -1761,7 +1775,7 @@ func (r *replicateChannelHandler) handlePack(forward bool, pack *msgstream.MsgPa
 			}
 		}
 		if err != nil {
-			r.sendErrEvent(err)
+			r.sendErrEvent(taskID, err)
 			log.Warn("fail to process the msg info", zap.Any("msg", msg.Type()), zap.Error(err))
 			return nil
 		}
@@ -1843,7 +1857,7 @@ func (r *replicateChannelHandler) handlePack(forward bool, pack *msgstream.MsgPa
 	if !ok {
 		GetTSManager().UnLockTargetChannel(tsManagerChannelKey)
 		log.Warn("not found the max ts", zap.String("channel", r.targetPChannel))
-		r.sendErrEvent(fmt.Errorf("not found the max ts"))
+		r.sendErrEvent(taskID, fmt.Errorf("not found the max ts"))
 		return nil
 	}
 	GetTSManager().UnsafeUpdatePackTS(tsManagerChannelKey, newPack.BeginTs, func(newTS uint64) (uint64, bool) {
@@ -2021,10 +2035,11 @@ func copyMsgPositions(positions []*msgpb.MsgPosition) []*msgpb.MsgPosition {
 	return newPositions
 }
 
-func (r *replicateChannelHandler) sendErrEvent(err error) {
+func (r *replicateChannelHandler) sendErrEvent(taskID string, err error) {
 	r.apiEventChan <- &api.ReplicateAPIEvent{
 		EventType: api.ReplicateError,
 		Error:     err,
+		TaskID:    taskID,
 	}
 }
 
